@@ -69,19 +69,32 @@ typedef struct { uint32_t events; struct { int fd; } data; } epoll_event;
 #define epoll_event_DEFAULT ((epoll_event){0, {0}})
 /* ghost record of the last interest registration: the mask the kernel holds for G_ep_fd */
 int G_ep_fd; uint32_t G_ep_events; int G_ep_op; int G_ep_epfd; unsigned G_ep_mods, G_ep_dels;
+unsigned G_seq, G_ep_seq;             /* ghost event clock (ordering clauses): every recorded environment event takes the next tick */
 #ifndef IORA_NATIVE
 unsigned nondet_unsigned(void);
 /* int epoll_ctl(int epfd, int op, int fd, struct epoll_event *event): records what was registered. ENV: the call succeeds
  * (the code under contract ignores the result of EPOLL_CTL_MOD/DEL; a failing epoll_ctl on a registered fd is outside the model) */
 static inline int iora_epoll_ctl(int epfd, int op, int fd, epoll_event *ev)
 {
-  G_ep_epfd = epfd; G_ep_op = op; G_ep_fd = fd;
+  G_errno = nondet_int();                      /* a system call may overwrite errno */
+  G_ep_epfd = epfd; G_ep_op = op; G_ep_fd = fd; G_ep_seq = ++G_seq;
   if (op == EPOLL_CTL_DEL) { G_ep_events = 0; if (G_ep_dels < 0x7fffffffu) G_ep_dels++; }
   else { IORA_ASSERT(ev != 0, "epoll_ctl(ADD/MOD): event argument present"); IORA_ASSERT(ev->data.fd == fd, "epoll_ctl: the event's tag is the fd it is registered for (handleFdEvent looks the session up by it)");
          G_ep_events = ev->events; if (G_ep_mods < 0x7fffffffu) G_ep_mods++; }
   return 0;
 }
 static inline MonoTime iora_mono_now(void) { MonoTime t; return t; }
+/* close(fd), SSL_shutdown, SSL_free, TimerService::cancel: ghost records (count, argument, tick) */
+unsigned G_fdclose_calls, G_fdclose_seq; int G_fdclose_fd;
+unsigned G_sslshut_calls, G_sslshut_seq, G_sslfree_calls, G_sslfree_seq; SSL *G_sslshut_arg, *G_sslfree_arg;
+unsigned G_tcancel_calls; uint64_t G_TID; unsigned G_tcancel_tid_calls;      /* G_TID: witness timer id (unconstrained) */
+static inline int iora_close(int fd) { G_errno = nondet_int(); if (G_fdclose_calls < 0x7fffffffu) G_fdclose_calls++; G_fdclose_fd = fd; G_fdclose_seq = ++G_seq; return nondet_int(); }
+static inline int iora_SSL_shutdown(SSL *ssl) { IORA_ASSERT(ssl != 0, "SSL_shutdown(): non-null SSL object"); IORA_ASSERT(G_sslfree_calls == 0 || G_sslfree_arg != ssl, "SSL_shutdown(): object not freed yet");
+  G_errno = nondet_int(); if (G_sslshut_calls < 0x7fffffffu) G_sslshut_calls++; G_sslshut_arg = ssl; G_sslshut_seq = ++G_seq; return nondet_int(); }
+static inline void iora_SSL_free(SSL *ssl) { if (G_sslfree_calls < 0x7fffffffu) G_sslfree_calls++; G_sslfree_arg = ssl; G_sslfree_seq = ++G_seq; }
+static inline void iora_timer_cancel(TimerService *ts, uint64_t id)
+{ IORA_ASSERT(ts != 0, "TimerService::cancel through a non-null service"); IORA_ASSERT(id != 0, "only scheduled timers (id != 0) are cancelled");
+  if (G_tcancel_calls < 0x7fffffffu) G_tcancel_calls++; if (id == G_TID && G_tcancel_tid_calls < 0x7fffffffu) G_tcancel_tid_calls++; }
 /* plain harnesses: CBMC gives _Bool fields of nondeterministic objects arbitrary BYTE values (2, 4, ...) whose truth value is then
  * read inconsistently; make every _Bool field a proper nondeterministic boolean */
 static inline void iora_canon_session(Session *s)
